@@ -39,6 +39,8 @@ def builtin_geometry(ctx: Ctx) -> None:
         c0 = [rng.uniform(-3, 3) for _ in range(3)]
         r0 = rng.uniform(0.5, 3.0)
         steps = [rng.choice(["translate", "rotate", "scale", "copy"]) for _ in range(rng.choice([0, 1, 1, 2, 3]))]
+        if i % 3 == 0 and "copy" not in steps:
+            steps.append("copy")          # (every third shape: an edge on a second surface, then a copy - not left to chance)
         centre, radius = list(c0), r0
         try:
             if kind == "Hemisphere":
@@ -46,7 +48,7 @@ def builtin_geometry(ctx: Ctx) -> None:
             else:
                 from classy_blocks.construct.shapes.sphere import EighthSphere
                 shape = EighthSphere(c0, vadd(c0, [r0, 0, 0]), [0, 0, 1])
-            second = rng.random() < 0.5
+            second = rng.random() < 0.5 or i % 3 == 0
             if second:
                 # one edge that lies on the sphere is projected to a second surface as well (its label list has two entries)
                 cand = [(op, c1, c2) for op in shape.operations for c1, c2, data in op.edges.get_all_beams()
